@@ -1,8 +1,8 @@
 SPECIFICATION VSpec
 CONSTANTS
   BugWriteErrorSwallowed = FALSE
-  MaxDecl = 4
-  MaxChunk = 2
+  MaxDecl = 5
+  MaxChunk = 3
   MaxChunks = 4
   NetMax = 3
 INVARIANTS StoredOnlyValid MachineIsAccept
